@@ -1180,6 +1180,82 @@ def ragged_model_probe():
     return out[:1]
 
 
+def delay_initial_values_probe():
+    """Delay built with user-supplied initial values (an array, a list of rows, a tuple of rows) of width 3: the node's dimension is declared by
+    them, so 2-wide data must be refused before the state is touched, and 3-wide data gives rows / a state of width 3."""
+    rpy()
+    from reservoirpy.nodes import Delay
+    out = []
+    iv = [[1.0, 2.0, 3.0], [4.0, 5.0, 6.0]]
+    for form, val in (("array", np.array(iv)), ("list", iv), ("tuple", tuple(tuple(r) for r in iv))):
+        try:
+            node = Delay(delay=2, initial_values=val, name=uname("dliv"))
+            try:
+                node.run(np.ones((5, 2)))
+                raised = None
+            except Exception as e:  # noqa: BLE001
+                raised = type(e).__name__
+            st = node.state() if node.is_initialized else None
+            if raised is None or (st is not None and (np.ndim(st) != 2 or np.shape(st) != (1, node.output_dim))):
+                out.append(("delay:initial-values-width-unchecked", "Delay(delay=2, initial_values=<%s of two 3-wide rows>).run(2-wide data): %s; "
+                            "input_dim=%r output_dim=%r state shape %s" % (form, "accepted" if raised is None else "raised " + raised,
+                                                                           node.input_dim, node.output_dim, None if st is None else np.shape(st))))
+                continue
+            node2 = Delay(delay=2, initial_values=val, name=uname("dliv"))
+            r = node2.run(np.ones((4, 3)))
+            if np.shape(r) != (4, 3) or np.shape(node2.state()) != (1, 3):
+                out.append(("delay:initial-values-shape", "Delay with 3-wide initial values (%s) on 3-wide data: output %s, state %s"
+                            % (form, np.shape(r), np.shape(node2.state()))))
+        except Exception as e:  # noqa: BLE001
+            out.append(("delay:initial-values:exception", "Delay initial-values probe (%s) raised %s: %s" % (form, type(e).__name__, str(e)[:100])))
+    return out
+
+
+def later_sequence_type_probe():
+    """dimensions already fixed, data = a LIST of sequences whose LATER element is not numeric (bool / str / object array) although it has exactly
+    the shape of the valid sequence before it: the whole call is refused, and nothing was accumulated / no state advanced"""
+    rpy()
+    from reservoirpy.nodes import Reservoir, Ridge
+    out = []
+    rs = np.random.RandomState(5)
+    T = 6
+    X0, Y0, X1, Y1, Y2 = (rs.randint(-8, 9, (T, 3)) / 4.0, rs.randint(-8, 9, (T, 2)) / 4.0, rs.randint(-8, 9, (T, 3)) / 4.0,
+                          rs.randint(-8, 9, (T, 2)) / 4.0, rs.randint(-8, 9, (T, 2)) / 4.0)
+    bads = {"bool": rs.randint(0, 2, (T, 3)) > 0, "str": np.full((T, 3), "0.5"), "object": np.full((T, 3), None, dtype=object)}
+    for lab, bad in bads.items():
+        try:
+            ref = Ridge(ridge=0.125, name=uname("lsr")); ref.partial_fit(X0, Y0); ref.fit()
+            node = Ridge(ridge=0.125, name=uname("lsn")); node.partial_fit(X0, Y0)
+            try:
+                node.partial_fit([X1, bad], [Y1, Y2]); raised = False
+            except Exception:  # noqa: BLE001
+                raised = True
+            node.fit()
+            if not raised:
+                out.append(("accepted:non-numeric:later-sequence-of-list", "Ridge.partial_fit([X, <%s array of the same shape>], ...) on an initialised node is accepted" % lab))
+            elif not (np.array_equal(node.Wout, ref.Wout) and np.array_equal(node.bias, ref.bias)):
+                out.append(("late-rejection:non-numeric:later-sequence-of-list", "Ridge.partial_fit([X, <%s array of the same shape>], ...) is refused only after the "
+                            "first sequence was accumulated: the following fit() differs from the fit without the refused call" % lab))
+            res = Reservoir(4, seed=1, rc_connectivity=1.0, input_connectivity=1.0, name=uname("lsv"))
+            rd = Ridge(ridge=0.125, name=uname("lsw"))
+            m = res >> rd
+            m.fit(X0, Y0); m.run(X0)
+            before = (res.state().copy(), rd.state().copy())
+            try:
+                m.run([X1, bad]); raised = False
+            except Exception:  # noqa: BLE001
+                raised = True
+            same = np.array_equal(before[0], res.state()) and np.array_equal(before[1], rd.state())
+            if not raised:
+                out.append(("accepted:non-numeric:later-sequence-of-list", "Model.run([X, <%s array of the same shape>]) on an initialised model is accepted" % lab))
+            elif not same:
+                out.append(("late-rejection:non-numeric:later-sequence-of-list", "Model.run([X, <%s array of the same shape>]) is refused only after the first sequence "
+                            "was run: node states moved" % lab))
+        except Exception as e:  # noqa: BLE001
+            out.append(("later-sequence-type:exception", "probe (%s) raised %s: %s" % (lab, type(e).__name__, str(e)[:100])))
+    return out
+
+
 def oracle(ctx, scale=1):
     rng = ctx.rng("oracle")
     cases = directed_cases() + [gen_case(rng, i) for i in range(ctx.n(300, 3000) * scale)]
@@ -1209,6 +1285,14 @@ def oracle(ctx, scale=1):
         if key not in seen:
             seen.add(key)
             out.append({"key": key, "what": what, "scenario": {"esn_probe": True}, "expected": None, "observed": what})
+    for key, what in delay_initial_values_probe():
+        if key not in seen:
+            seen.add(key)
+            out.append({"key": key, "what": what, "scenario": {"delay_initial_values_probe": True}, "expected": "an exception, state untouched", "observed": what})
+    for key, what in later_sequence_type_probe():
+        if key not in seen:
+            seen.add(key)
+            out.append({"key": key, "what": what, "scenario": {"later_sequence_type_probe": True}, "expected": "an exception, nothing accumulated", "observed": what})
     for key, what in ragged_model_probe():
         if key not in seen:
             seen.add(key)
@@ -1237,6 +1321,12 @@ def replay(payload):
         return {"violates": bool(v), "detail": v}
     if sc.get("esn_probe"):
         v = [k for k, _ in esn_probe() if k == payload.get("key")]
+        return {"violates": bool(v), "detail": v}
+    if sc.get("delay_initial_values_probe"):
+        v = [k for k, _ in delay_initial_values_probe() if k == payload.get("key")]
+        return {"violates": bool(v), "detail": v}
+    if sc.get("later_sequence_type_probe"):
+        v = [k for k, _ in later_sequence_type_probe() if k == payload.get("key")]
         return {"violates": bool(v), "detail": v}
     if sc.get("ragged_model_probe"):
         v = ragged_model_probe()
